@@ -119,6 +119,28 @@ def needs08(out):
     return False
 
 
+def free_form_evident(text):
+    """Does a free-form text hold a line that cannot be fixed form?  Class restriction of every free-form layout family: a text in
+    which every line starts with c, C, * or ! in column 1 (say 'character*8 function f(a); end' alone on its line) is a
+    legal fixed-form file of comment lines, and fparser documents that it decides for fixed form there."""
+    import re
+    for line in text.split("\n"):
+        if line and line[0] != "!":
+            if (line[0] != "\t" and re.match(r"[^c*!]\s*[^\s\d\t]", line[:5], re.I)) or line.rstrip().endswith("&"):
+                return True
+    return False
+
+
+def reorders(out):
+    """Does the derivation hold a statement that fparser prints with its parts in another order (BIND before RESULT)?"""
+    for r in out:
+        k, v = r["k"], r["v"]
+        tab = C.table(k) if k not in ("end", "endu", "cont", "enddo", "contains", "tcontains") else None
+        if tab and 1 <= v <= len(tab) and tab[v - 1].get("reorders"):
+            return True
+    return False
+
+
 def one_subset(out):
     """Is the derivation inside the F77/F90 subset handled by fparser1 (C19)?"""
     for r in out:
